@@ -113,7 +113,22 @@ QUERIES = [
     ("compat", "meter"), ("compat", "gram"), ("compat", "smoot"),
     ("fmt", "kilometer", "~P"), ("fmt", "microfortnight", "~"), ("fmt", "smoot", "D"), ("fmt", "kilosmoot", "~"),
     ("compact", "smoot"), ("compact", "meter"), ("name", "kilofurlong"), ("name", "kilokilometer"), ("name", "smoots"),
+    # the same conversions with magnitudes of other numeric types (the conversion-factor cache is shared between them)
+    ("convT", "Decimal", "mile", "meter"), ("convT", "Fraction", "mile", "meter"), ("convT", "int", "mile", "meter"), ("convT", "Decimal", "pound", "gram"),
+    ("convT", "int", "pound", "gram"), ("convT", "Decimal", "kilometer", "meter"), ("convT", "ndarray", "mile", "meter"), ("convT", "ndarray", "pound", "gram"),
+    ("addT", "Decimal", "mile", "meter"), ("addT", "float", "mile", "meter"), ("addT", "int", "kilometer", "meter"),
+    # base units under an explicitly named system, whatever the default system is
+    ("sbase", "mile", "cgs"), ("sbase", "mile", "imperial"), ("sbase", "volt", "cgs"), ("sbase", "pound", "mks"), ("sbase", "kilometer", "cgs"),
 ]
+
+NUM = {"Decimal": lambda v: Decimal(str(v)), "Fraction": lambda v: F(v), "int": lambda v: int(v), "float": lambda v: float(v),
+       "ndarray": lambda v: __import__("numpy").array([float(v), 2.0 * v])}
+
+
+def tdigest(q):
+    m = q.magnitude
+    return [type(m).__name__, digest(m.tolist() if hasattr(m, "tolist") else m), sorted([k, "%.10g" % float(v)] for k, v in q.unit_items())]
+
 
 
 def digest(x):
@@ -137,6 +152,13 @@ def ask(u, q):
             k = q[0]
             if k == "conv":
                 return digest(u.Quantity(3.0, q[1]).to(q[2]))
+            if k == "convT":
+                return tdigest(u.Quantity(NUM[q[1]](3), q[2]).to(q[3]))
+            if k == "addT":
+                return tdigest(u.Quantity(NUM[q[1]](3), q[2]) + u.Quantity(NUM[q[1]](2), q[3]))
+            if k == "sbase":
+                f, un = u.get_base_units(q[1], system=q[2])
+                return [digest(f), digest(1 * un)]
             if k == "parse":
                 return digest(u.parse_expression(q[1]))
             if k == "base":
